@@ -406,7 +406,7 @@ def gen_C07(rng, tier):
 
 # ----------------------------------------------------------------------------- C02 layering
 LAY_PTS = [None, F(0), F(1), F(2)]
-LAY_VALS = [None, F(1), F(-1), F(2), F(1, 2), F(-3, 2), F(1, 2 ** 30)]
+LAY_VALS = [None, F(1), F(-1), F(2), F(1, 2), F(-3, 2), F(1, 2 ** 30), F(0)]
 
 
 def rand_layer_call(rng, r, pts=None, vec=None):
@@ -416,7 +416,7 @@ def rand_layer_call(rng, r, pts=None, vec=None):
     if not vec:
         return C.layer_s(r, rng.choice(pts), rng.choice(pts), rng.choice(LAY_VALS))
     m = rng.randint(1, 3)
-    return C.layer_v(r, [(rng.choice(pts), rng.choice(pts), rng.choice([F(1), F(-1), F(2), F(1, 2)])) for _ in range(m)])
+    return C.layer_v(r, [(rng.choice(pts), rng.choice(pts), rng.choice([F(1), F(-1), F(2), F(1, 2), F(0)])) for _ in range(m)])
 
 
 def gen_C02(rng, tier):
@@ -1028,7 +1028,7 @@ def gen_C14(rng, tier):
                 prog.append(stat_query(rng, 0, rng.choice(STAT_Q)))
             elif r < 0.8:
                 a, b = rng.choice(lay_pts), rng.choice(lay_pts)
-                v = rng.choice([F(1), F(-1), F(2)])
+                v = rng.choice([F(1), F(-1), F(2), F(0)])
                 if rng.random() < 0.5:
                     prog.append(C.layer_s(0, a, b, v))
                 else:
